@@ -5,7 +5,7 @@
     source are regenerated into Gen/FsWalk_gen.v on every run and the premises [backend_keys_ok], [walk_ok] (and
     the chain parameters) are discharged for them by kernel-checked instance obligations in checks/c19.py. *)
 From Coq Require Import List NArith Bool Permutation.
-From SV Require Import SM.FsChain SM.FsChainProofs SM.FsChainRel SM.FsChainWitness SM.FsChainRaw SM.FsChainCompose SM.FsChainComplete SM.FsChainNorm SM.FsChainForms SM.FsChainFormsProofs SM.FsChainWhole SM.FsChainWholeProofs SM.FsChainRead SM.FsChainReadProofs SM.FsChainMixed SM.FsChainMixedProofs SM.FsChainAdd SM.FsChainAddProofs SM.FsChainWalkGen SM.FsChainNoise SM.FsChainProperty SM.FsChainPropertyProofs.
+From SV Require Import SM.FsChain SM.FsChainProofs SM.FsChainRel SM.FsChainWitness SM.FsChainRaw SM.FsChainCompose SM.FsChainComplete SM.FsChainNorm SM.FsChainForms SM.FsChainFormsProofs SM.FsChainWhole SM.FsChainWholeProofs SM.FsChainRead SM.FsChainReadProofs SM.FsChainMixed SM.FsChainMixedProofs SM.FsChainAdd SM.FsChainAddProofs SM.FsChainWalkGen SM.FsChainNoise SM.FsChainNoiseRaw SM.FsChainProperty SM.FsChainPropertyProofs.
 Import ListNotations.
 Open Scope N_scope.
 
@@ -648,6 +648,13 @@ Theorem c19_chain_walk_any_member : forall dops ms f f0 x,
   In x (chain_walk RelDropSegs dops ms f) ->
   chain_get ms (fst x) = Some (snd x).
 Proof. exact chain_walk_lookup_closed_all. Qed.
+(** ... and with directory members under any spelling too (their exactness is asked of the clean spellings): the
+    directory backend resolves names through normpath after the slash conversion as well. *)
+Theorem c19_chain_walk_any_member_any_spelling : forall dops ms f f0 x,
+  dedup_ops_ok dops = true -> Forall (any_member_spelt f f0) ms ->
+  In x (chain_walk RelDropSegs dops ms f) ->
+  chain_get ms (fst x) = Some (snd x).
+Proof. exact chain_walk_lookup_closed_spelt. Qed.
 Example c19_spelling_examples :
   spells [46; 47; 100] [100] /\ spells [100; 47] [100] /\ spells [100; 47; 46] [100]
   /\ spells [100; 92; 46; 92; 101; 47; 47] [100; 47; 101] /\ spells [46] [] /\ spells [46; 47] [] /\ spells [] []
